@@ -3,8 +3,10 @@ package main
 import (
 	"fmt"
 	"go/ast"
+	"go/constant"
 	"go/token"
 	"go/types"
+	"os"
 	"sort"
 	"strings"
 )
@@ -604,53 +606,73 @@ func (c *Ctx) ruleStrategyTable(rule string) {
 		c.Rep.undecided(rule, "queueManager.next", "missing", "", "next() not found")
 		return
 	}
-	info := next.Info()
+	// the strategy domain is finite: next() is evaluated (E7) for every declared Strategy constant and for a value that
+	// is none of them; however the dispatch is written (switch, if-chain, through a local) each constant must reach its
+	// selector and anything else an error.
 	want := map[string]string{"RoundRobin": "GetRoundRobinItem", "MaxLen": "GetMaxLenItem", "MinLen": "GetMinLenItem"}
-	got := map[string]string{}
-	defErr := false
-	ast.Inspect(next.Body, func(n ast.Node) bool {
-		sw, ok := n.(*ast.SwitchStmt)
-		if !ok || sw.Tag == nil || selField(info, sw.Tag) != modPath+".queueManager.strategy" {
-			return true
-		}
-		for _, cc := range sw.Body.List {
-			clause := cc.(*ast.CaseClause)
-			target := ""
-			isErr := false
-			if len(clause.Body) == 1 {
-				if ret, ok := clause.Body[0].(*ast.ReturnStmt); ok {
-					if len(ret.Results) == 1 {
-						if call, ok := ast.Unparen(ret.Results[0]).(*ast.CallExpr); ok {
-							if ce := resolveCallee(info, call); ce.Fn != nil {
-								target = ce.Fn.Name()
-							}
-						}
-					}
-					if len(ret.Results) == 2 && isNilExpr(info, ret.Results[0]) && !isNilExpr(info, ret.Results[1]) {
-						isErr = true
-					}
-				}
-			}
-			if clause.List == nil {
-				defErr = isErr
-				continue
-			}
-			for _, ce := range clause.List {
-				if id, ok := ast.Unparen(ce).(*ast.Ident); ok {
-					got[id.Name] = target
-				}
-			}
-		}
-		return false
-	})
-	for k, w := range want {
-		c.Rep.check(got[k] == w, rule, next.Short(), "strategy "+k, c.P.pos(next.Body), k+" → "+w, fmt.Sprintf("strategy %s selects with %q instead of %s", k, got[k], w))
+	type sv struct {
+		name string
+		val  int64
 	}
-	c.Rep.check(defErr, rule, next.Short(), "unknown strategy", c.P.pos(next.Body), "unknown strategy → error", "an unknown strategy value must yield an error")
+	var domain []sv
+	used := map[int64]bool{}
+	scope := next.Pkg.Types.Scope()
+	for _, nm := range scope.Names() {
+		if k, ok := scope.Lookup(nm).(*types.Const); ok {
+			if named, ok := k.Type().(*types.Named); ok && named.Obj().Name() == "Strategy" && named.Obj().Pkg() == next.Pkg.Types {
+				if v, ok := constant.Int64Val(k.Val()); ok {
+					domain = append(domain, sv{nm, v})
+					used[v] = true
+				}
+			}
+		}
+	}
+	other := int64(0)
+	for used[other] {
+		other++
+	}
+	domain = append(domain, sv{"", other})
+	for k := range want {
+		found := false
+		for _, d := range domain {
+			found = found || d.name == k
+		}
+		if !found {
+			c.Rep.undecided(rule, next.Short(), "strategy "+k, c.P.pos(next.Body), "Strategy constant "+k+" not declared")
+		}
+	}
+	for _, d := range domain {
+		te := &tableEval{c: c}
+		te.leaf = func(g *Func, e ast.Expr) (tval, bool) {
+			if selField(g.Info(), e) == modPath+".queueManager.strategy" {
+				return tval{I: d.val}, true
+			}
+			if call, ok := e.(*ast.CallExpr); ok {
+				if ce := resolveCallee(g.Info(), call); ce.Fn != nil && strings.HasPrefix(ce.Key, modPath+"/internal/helpers.Manager.Get") {
+					return tval{Obj: "sel:" + ce.Fn.Name()}, true
+				}
+			}
+			return tval{}, false
+		}
+		res, ok := te.call(next, nil)
+		inst := "strategy " + d.name
+		if d.name == "" {
+			inst = "unknown strategy"
+		}
+		if !ok || len(res) == 0 {
+			c.Rep.undecided(rule, next.Short(), inst, c.P.pos(next.Body), "next() not evaluable: "+te.why)
+			continue
+		}
+		if w, isWant := want[d.name]; isWant {
+			c.Rep.check(len(res) == 1 && res[0].Obj == "sel:"+w, rule, next.Short(), inst, c.P.pos(next.Body), d.name+" → "+w, fmt.Sprintf("strategy %s selects with %v instead of %s", d.name, res, w))
+		} else if d.name == "" {
+			c.Rep.check(len(res) == 2 && !res[1].IsNil, rule, next.Short(), inst, c.P.pos(next.Body), "unknown strategy → error", "an unknown strategy value must yield an error")
+		}
+	}
 }
 
 func (c *Ctx) ruleCursor(rule string) {
-	c.Rep.rule(rule, "E2+E4", "round-robin cursor: written under the manager's write lock as (cursor+1)%len(items) or 0; item read at the pre-increment cursor, returned only when non-empty; one full cycle", 5)
+	c.Rep.rule(rule, "E2+E4", "round-robin cursor: written under the manager's write lock, only with values derived as 0 / cursor / (cursor value+1)%len(items); the item returned is a registered item found non-empty on that path; the all-empty error is reachable", 5)
 	mgr := modPath + "/internal/helpers.Manager"
 	fIdx, fItems := mgr+".roundRobinIndex", mgr+".items"
 	lf := c.lockFacts()
@@ -680,19 +702,54 @@ func (c *Ctx) ruleCursor(rule string) {
 					continue
 				}
 				rhs := ast.Unparen(as.Rhs[i])
-				good := false
-				if tv := f.Info().Types[rhs]; tv.Value != nil && tv.Value.ExactString() == "0" {
-					good = true
+				// a cursor value is 0, the cursor itself, (cursor value + 1) % number of items, or a local that only
+				// ever holds such values (the scan may run on locals and publish the cursor before it returns)
+				var isCount, cursorVal func(e ast.Expr, depth int) bool
+				inProgress := map[types.Object]bool{}
+				isCount = func(e ast.Expr, depth int) bool {
+					e = ast.Unparen(e)
+					if call, ok := e.(*ast.CallExpr); ok && resolveCallee(f.Info(), call).Builtin == "len" && len(call.Args) == 1 && selField(f.Info(), call.Args[0]) == fItems {
+						return true
+					}
+					if id, ok := e.(*ast.Ident); ok && depth > 0 {
+						if obj := f.Info().ObjectOf(id); obj != nil {
+							all, n := assignedOnlyFrom(f, obj, func(r ast.Expr, idx, cnt int) bool { return isCount(r, depth-1) })
+							return all && n > 0
+						}
+					}
+					return false
 				}
-				if be, ok := rhs.(*ast.BinaryExpr); ok && be.Op == token.REM {
-					if inner, ok := ast.Unparen(be.X).(*ast.BinaryExpr); ok && inner.Op == token.ADD && selField(f.Info(), inner.X) == fIdx {
-						if tv := f.Info().Types[inner.Y]; tv.Value != nil && tv.Value.ExactString() == "1" {
-							if call, ok := ast.Unparen(be.Y).(*ast.CallExpr); ok && resolveCallee(f.Info(), call).Builtin == "len" && selField(f.Info(), call.Args[0]) == fItems {
-								good = true
+				cursorVal = func(e ast.Expr, depth int) bool {
+					e = ast.Unparen(e)
+					if tv := f.Info().Types[e]; tv.Value != nil && tv.Value.ExactString() == "0" {
+						return true
+					}
+					if selField(f.Info(), e) == fIdx {
+						return true
+					}
+					if be, ok := e.(*ast.BinaryExpr); ok && be.Op == token.REM && isCount(be.Y, 2) {
+						if inner, ok := ast.Unparen(be.X).(*ast.BinaryExpr); ok && inner.Op == token.ADD && cursorVal(inner.X, depth) {
+							if tv := f.Info().Types[inner.Y]; tv.Value != nil && tv.Value.ExactString() == "1" {
+								return true
 							}
 						}
 					}
+					if id, ok := e.(*ast.Ident); ok && depth > 0 {
+						if obj := f.Info().ObjectOf(id); obj != nil {
+							// a local that is being examined is assumed good (next = (next+1)%n): the claim is about all its
+							// assignments together
+							if inProgress[obj] {
+								return true
+							}
+							inProgress[obj] = true
+							all, n := assignedOnlyFrom(f, obj, func(r ast.Expr, idx, cnt int) bool { return cursorVal(r, depth-1) })
+							delete(inProgress, obj)
+							return all && n > 0
+						}
+					}
+					return false
 				}
+				good := cursorVal(rhs, 3)
 				c.Rep.check(good, rule, f.Short(), "cursor update", c.P.pos(as), "cursor = (cursor+1) % len(items), or 0", "the round-robin cursor must advance by exactly one modulo the number of items (or be reset to 0)")
 				if tv := f.Info().Types[rhs]; tv.Value != nil && tv.Value.ExactString() == "0" {
 					// a reset is only needed (and only fair) where items are removed: it keeps the cursor in bounds. A
@@ -725,95 +782,179 @@ func (c *Ctx) ruleCursor(rule string) {
 			return true
 		})
 	}
-	// within one iteration: item := items[cursor] read before the cursor is advanced; returned item is that one, behind Len()>0
-	sr := &seqRule{c: c, rule: rule}
-	var itemVar types.Object
-	ast.Inspect(rr.Body, func(n ast.Node) bool {
-		if as, ok := n.(*ast.AssignStmt); ok && len(as.Lhs) == 1 && len(as.Rhs) == 1 {
-			if ix, ok := ast.Unparen(as.Rhs[0]).(*ast.IndexExpr); ok && selField(info, ix.X) == fItems && selField(info, ix.Index) == fIdx {
-				itemVar = rootIdent(info, as.Lhs[0])
+	// the selection: what is returned without an error is an element of the items whose Len() was found > 0 on that
+	// path (the element is followed as a value: m.items[...] is the token "items[]", however the scan keeps its
+	// position); some path reports the all-empty error. Not decided structurally: that the scan visits every item once
+	// and in cursor order (an algorithmic property of the loop, see "does not decide").
+	// positions are followed symbolically as offsets from the cursor the call started with: the cursor field reads
+	// "c+k" (what was last stored, "c+0" at entry), (p+1)%len(items) of "c+k" is "c+(k+1)", m.items[p] of "c+k" is the
+	// item "item@c+k" (offsets above 2 are merged into "*", which makes the loop converge). However the scan is
+	// written — on the field or on locals, bounded or not — an item handed out from position c+k must leave the cursor
+	// at c+(k+1).
+	// a position that is not a constant offset from the cursor (start+i for a loop counter i, ...) is named after the
+	// expression that computes it: "p#<where>"; one past it is "p#<where>+1".
+	isPos := func(v Value) bool {
+		return v.Kind == VTok && (strings.HasPrefix(v.S, "c+") || strings.HasPrefix(v.S, "p#"))
+	}
+	bump := func(t string) string {
+		switch {
+		case t == "c+0":
+			return "c+1"
+		case t == "c+1":
+			return "c+2"
+		case strings.HasPrefix(t, "p#") && !strings.HasSuffix(t, "+1") && !strings.HasSuffix(t, "+*"):
+			return t + "+1"
+		case strings.HasPrefix(t, "p#"):
+			return strings.TrimSuffix(strings.TrimSuffix(t, "+1"), "+*") + "+*"
+		}
+		return "c+*"
+	}
+	isCountExpr := func(fr *Frame, e ast.Expr) bool {
+		fi := fr.Fn.Info()
+		e = ast.Unparen(e)
+		if call, ok := e.(*ast.CallExpr); ok && resolveCallee(fi, call).Builtin == "len" && len(call.Args) == 1 && selField(fi, call.Args[0]) == fItems {
+			return true
+		}
+		if id, ok := e.(*ast.Ident); ok {
+			if obj := fi.ObjectOf(id); obj != nil {
+				all, n := assignedOnlyFrom(fr.Fn, obj, func(r ast.Expr, idx, cnt int) bool {
+					call, ok := ast.Unparen(r).(*ast.CallExpr)
+					return ok && resolveCallee(fi, call).Builtin == "len" && len(call.Args) == 1 && selField(fi, call.Args[0]) == fItems
+				})
+				return all && n > 0
 			}
 		}
-		return true
-	})
-	sr.visit = func(fr *Frame, n ast.Node) string {
-		switch x := n.(type) {
-		case *ast.AssignStmt:
-			for i, l := range x.Lhs {
-				if selField(info, l) == fIdx {
-					return "advance"
-				}
-				if i < len(x.Rhs) {
-					if ix, ok := ast.Unparen(x.Rhs[i]).(*ast.IndexExpr); ok && selField(info, ix.X) == fItems && selField(info, ix.Index) == fIdx {
-						return "read-item"
+		return false
+	}
+	sr := &seqRule{c: c, rule: rule}
+	sr.init = kv("").set("T", "c+0")
+	sr.fieldStore = func(ip *Interp, fr *Frame, st *State, sel *ast.SelectorExpr, v Value) *State {
+		if selField(fr.Fn.Info(), sel) != fIdx {
+			return st
+		}
+		t := "?"
+		if isPos(v) {
+			t = v.S
+		}
+		if v.Kind == VConst && v.S == "0" {
+			t = "zero"
+		}
+		return st.WithDom(st.Dom.(kv).set("T", t))
+	}
+	sr.exprValSt = func(ip *Interp, fr *Frame, st *State, e ast.Expr) (Value, bool) {
+		fi := fr.Fn.Info()
+		switch x := ast.Unparen(e).(type) {
+		case *ast.SelectorExpr:
+			switch selField(fi, x) {
+			case fIdx:
+				return Value{Kind: VTok, S: st.Dom.(kv).get("T")}, true
+			case fItems:
+				return Value{Kind: VTok, S: "items"}, true
+			}
+		case *ast.BinaryExpr:
+			if x.Op == token.REM && isCountExpr(fr, x.Y) {
+				if inner, ok := ast.Unparen(x.X).(*ast.BinaryExpr); ok && inner.Op == token.ADD {
+					if pv := ip.pureValue(fr, st, inner.X); isPos(pv) {
+						if tv := fi.Types[inner.Y]; tv.Value != nil && tv.Value.ExactString() == "1" {
+							return Value{Kind: VTok, S: bump(pv.S)}, true
+						}
+						return Value{Kind: VTok, S: "p#" + c.P.pos(x)}, true
 					}
 				}
 			}
-		case *ast.ReturnStmt:
-			if len(x.Results) == 2 && isNilExpr(info, x.Results[1]) {
-				if rootIdent(info, x.Results[0]) == itemVar && itemVar != nil {
-					return "ret:item"
+		case *ast.IndexExpr:
+			if selField(fi, x.X) == fItems {
+				if pv := ip.pureValue(fr, st, x.Index); isPos(pv) {
+					return Value{Kind: VTok, S: "item@" + pv.S}, true
 				}
-				return "ret:other"
+				return Value{Kind: VTok, S: "item@?"}, true
 			}
 		}
-		return ""
+		return Value{}, false
 	}
 	sr.classify = func(fr *Frame, call *ast.CallExpr, ce *Callee, args []Value) *callEvent {
-		if ce.Fn != nil && ce.Fn.Name() == "Len" && ce.Recv != nil && rootIdent(info, ce.Recv) == itemVar && itemVar != nil {
+		if ce.Fn != nil && ce.Fn.Name() == "Len" && ce.RecvVal.Kind == VTok && (ce.RecvVal.S == "items[]" || strings.HasPrefix(ce.RecvVal.S, "item@")) {
 			return &callEvent{Atomic: true, Results: tok("ilen")}
 		}
-		return nil
+		if ce.Builtin != "" || ce.Conv {
+			return nil
+		}
+		return &callEvent{Atomic: true}
 	}
 	sr.condExpr = func(fr *Frame, e ast.Expr, branch bool, ip *Interp, st *State) string {
 		be, op := binOp(e)
 		if be == nil {
 			return ""
 		}
-		if v := ip.CondVal; false && v.Kind == VTok {
-			return ""
+		x, y := be.X, be.Y
+		if v := ip.pureValue(fr, st, y); v.Kind == VTok && v.S == "ilen" {
+			x, y = y, x
+			switch op {
+			case token.LSS:
+				op = token.GTR
+			case token.GTR:
+				op = token.LSS
+			case token.LEQ:
+				op = token.GEQ
+			case token.GEQ:
+				op = token.LEQ
+			}
 		}
-		// item.Len() > 0
-		if call, ok := ast.Unparen(be.X).(*ast.CallExpr); ok {
-			if ce := resolveCallee(info, call); ce.Fn != nil && ce.Fn.Name() == "Len" && rootIdent(info, ce.Recv) == itemVar {
-				if tv := info.Types[be.Y]; tv.Value != nil && tv.Value.ExactString() == "0" && (op == token.GTR || op == token.NEQ) {
-					return fmt.Sprintf("nonempty=%v", branch)
+		isLen := false
+		if v := ip.pureValue(fr, st, x); v.Kind == VTok && v.S == "ilen" {
+			isLen = true
+		} else if call, ok := ast.Unparen(x).(*ast.CallExpr); ok {
+			if ce := resolveCallee(fr.Fn.Info(), call); ce.Fn != nil && ce.Fn.Name() == "Len" && ce.Recv != nil {
+				if rv := ip.pureValue(fr, st, ce.Recv); rv.Kind == VTok && (rv.S == "items[]" || strings.HasPrefix(rv.S, "item@")) {
+					isLen = true
 				}
 			}
 		}
-		// cursor == start
-		if (selField(info, be.X) == fIdx || selField(info, be.Y) == fIdx) && op == token.EQL {
-			return fmt.Sprintf("cycle-done=%v", branch)
+		if !isLen {
+			return ""
+		}
+		if tv := fr.Fn.Info().Types[y]; tv.Value == nil || tv.Value.ExactString() != "0" {
+			return ""
+		}
+		switch op {
+		case token.GTR, token.NEQ:
+			return fmt.Sprintf("nonempty=%v", branch)
+		case token.LEQ, token.EQL:
+			return fmt.Sprintf("nonempty=%v", !branch)
 		}
 		return ""
 	}
-	iters := 0
+	selected, allEmpty := 0, false
 	for _, sg := range sr.segments(rr) {
-		if sg.Kind != "iter" {
-			if sg.has("ret:other") {
-				c.Rep.fail(rule, rr.Short(), "returns something other than the scanned item", sg.End, "round-robin selection returns an item other than the one at the cursor")
-			}
+		if os.Getenv("VARMQLINT_DEBUGSEQ") != "" {
+			fmt.Fprintf(os.Stderr, "R15.3 seg kind=%s loop=%v exit=%v how=%s syms=%v ret=%v T=%s end=%s\n", sg.Kind, sg.Loop, sg.Exit, sg.How, sg.Syms, sg.Ret, sg.T, sg.End)
+		}
+		if sg.Kind != "path" || len(sg.Ret) != 2 {
 			continue
 		}
-		iters++
-		desc := "[" + strings.Join(sg.Syms, " ") + "]"
-		good := sg.count("read-item") == 1 && sg.count("advance") == 1 && sg.index("read-item") < sg.index("advance") && !sg.has("ret:other")
-		if sg.has("ret:item") {
-			good = good && sg.before("nonempty=true", "ret:item")
+		if sg.Ret[1].Kind == VNil {
+			selected++
+			isItem := sg.Ret[0].Kind == VTok && (sg.Ret[0].S == "items[]" || strings.HasPrefix(sg.Ret[0].S, "item@"))
+			ok := isItem && sg.has("nonempty=true")
+			c.Rep.check(ok, rule, rr.Short(), "scan step", sg.End, "returns a registered item found non-empty on this path",
+				"round-robin selection returns, without an error, something that is not a registered item whose Len() was found > 0 on that path: ["+strings.Join(sg.Syms, " ")+"]")
+			// the cursor is left one past the item handed out
+			if isItem && (strings.HasPrefix(sg.Ret[0].S, "item@c+") || strings.HasPrefix(sg.Ret[0].S, "item@p#")) {
+				pos := sg.Ret[0].S[len("item@"):]
+				if !strings.HasSuffix(pos, "+*") {
+					c.Rep.check(sg.T == bump(pos) || (pos == "c+2" && sg.T == "c+*"), rule, rr.Short(), "cursor update", sg.End, "item from position "+pos+" leaves the cursor at "+bump(pos),
+						"round-robin selection hands out the item at position "+pos+" (relative to the cursor it started with) and leaves the cursor at "+sg.T+" instead of one past that item: the next selection starts from the wrong queue (the same queue is served again, or queues are skipped)")
+				}
+			}
+		} else if isNonNilErr(sg.Ret[1]) {
+			allEmpty = true
 		}
-		c.Rep.check(good, rule, rr.Short(), "scan step", sg.End, "item read at the cursor, cursor advanced once, item returned only when non-empty", "each round-robin scan step must read the item at the cursor, advance the cursor exactly once, and return the item only if it is non-empty: "+desc)
 	}
-	if iters == 0 {
-		c.Rep.undecided(rule, rr.Short(), "no scan loop", c.P.pos(rr.Body), "GetRoundRobinItem has no scan loop")
+	if selected == 0 {
+		c.Rep.undecided(rule, rr.Short(), "no scan loop", c.P.pos(rr.Body), "GetRoundRobinItem has no path that returns an item")
 	}
-	// the scan terminates: a path compares the cursor with the start position and returns the all-empty error
-	term := false
-	for _, sg := range sr.segments(rr) {
-		if sg.has("cycle-done=true") && len(sg.Ret) == 2 && isNonNilErr(sg.Ret[1]) {
-			term = true
-		}
-	}
-	c.Rep.check(term, rule, rr.Short(), "scan does not stop after one cycle", c.P.pos(rr.Body), "after one full cycle without a non-empty item an error is returned", "the round-robin scan must stop with an error after one full cycle over empty items (otherwise it spins for ever holding the manager lock)")
+	c.Rep.check(allEmpty, rule, rr.Short(), "scan does not stop after one cycle", c.P.pos(rr.Body), "some path reports that all items are empty", "the round-robin scan never reports the all-empty error (with nothing to select it would spin for ever holding the manager lock)")
+	_ = info
 }
 
 func (c *Ctx) ruleLenComparators(rule string) {
@@ -879,52 +1020,7 @@ func (c *Ctx) ruleLenComparators(rule string) {
 	}
 	minF := c.P.byObj[mgr+".GetMinLenItem"]
 	if minF != nil {
-		info := minF.Info()
-		// the update condition: the if whose body assigns the candidate
-		var cond ast.Expr
-		var lVar, minVar types.Object
-		ast.Inspect(minF.Body, func(n ast.Node) bool {
-			ifs, ok := n.(*ast.IfStmt)
-			if !ok {
-				return true
-			}
-			assigns := 0
-			ast.Inspect(ifs.Body, func(m ast.Node) bool {
-				if as, ok := m.(*ast.AssignStmt); ok {
-					assigns += len(as.Lhs)
-					for i, l := range as.Lhs {
-						if i < len(as.Rhs) {
-							if lo, ro := rootIdent(info, l), rootIdent(info, as.Rhs[i]); lo != nil && ro != nil {
-								if b, ok := lo.Type().Underlying().(*types.Basic); ok && b.Info()&types.IsInteger != 0 {
-									minVar, lVar = lo, ro
-								}
-							}
-						}
-					}
-				}
-				return true
-			})
-			if assigns >= 2 && cond == nil {
-				cond = ifs.Cond
-			}
-			return true
-		})
-		if cond == nil || lVar == nil || minVar == nil {
-			c.Rep.undecided(rule, minF.Short(), "update condition", c.P.pos(minF.Body), "cannot find the candidate-update condition of the MinLen scan")
-		} else {
-			for _, p := range [][2]int64{{0, -1}, {3, -1}, {3, 5}, {5, 5}, {7, 5}, {0, 5}} {
-				te := &tableEval{c: c}
-				env := tenv{lVar: tval{I: p[0]}, minVar: tval{I: p[1]}}
-				v, ok := te.expr(minF, cond, env)
-				inst := fmt.Sprintf("MinLen update with l=%d min=%d", p[0], p[1])
-				if !ok || !v.IsBool {
-					c.Rep.undecided(rule, minF.Short(), inst, c.P.pos(cond), "condition not evaluable: "+te.why)
-					break
-				}
-				want := p[0] > 0 && (p[1] == -1 || p[0] < p[1])
-				c.Rep.check(v.B == want, rule, minF.Short(), inst, c.P.pos(cond), fmt.Sprintf("%s = %v", inst, want), fmt.Sprintf("%s evaluates to %v; MinLen must take a queue iff it is non-empty and shorter than the best so far (expected %v)", inst, v.B, want))
-			}
-		}
+		c.ruleMinLenScan(rule, minF, mgr)
 		c.allEmptyError(rule, minF)
 	}
 }
@@ -1205,5 +1301,164 @@ func (c *Ctx) ruleLifecycleVsListener(rule string) {
 					name+" tests the worker status and later writes it with a plain store; the context listener's asynchronous Stop() is not serialised with it, so the store can overwrite what that Stop wrote in between (e.g. Resume storing Running over Stopped: the worker reports Running with its channels torn down and a cancelled context)")
 			}
 		}
+	}
+}
+
+// ruleMinLenScan decides the MinLen selection on order types. The scan touches the queue lengths only through
+// comparisons (with 0, with a sentinel, with each other), so which item it returns depends only on the order type of
+// the lengths: the loop body and the statements around it are evaluated (E7) for every sequence of up to three items
+// with lengths in {0,1,2,3} — every order type of three lengths, empty or not — and the item returned must be one of
+// the non-empty items of minimal length (all empty: the error). How the scan keeps its best-so-far (a -1 sentinel, a
+// found flag, the candidate's own Len()) does not matter.
+func (c *Ctx) ruleMinLenScan(rule string, minF *Func, mgr string) {
+	info := minF.Info()
+	fItems := mgr + ".items"
+	// the scan loop: a top-level range over the items or an index loop over them
+	var pre, post []ast.Stmt
+	var body *ast.BlockStmt
+	var elem, key types.Object
+	for i, s := range minF.Body.List {
+		switch x := s.(type) {
+		case *ast.RangeStmt:
+			if selField(info, x.X) == fItems && body == nil {
+				body = x.Body
+				if x.Value != nil {
+					elem = rootIdent(info, x.Value)
+				}
+				if x.Key != nil {
+					key = rootIdent(info, x.Key)
+				}
+				pre, post = minF.Body.List[:i], minF.Body.List[i+1:]
+			}
+		case *ast.ForStmt:
+			if iv := indexLoopVar(minF, x, func(e ast.Expr) bool { return selField(info, e) == fItems }); iv != nil && body == nil {
+				body, key = x.Body, iv
+				pre, post = minF.Body.List[:i], minF.Body.List[i+1:]
+			}
+		}
+	}
+	if body == nil {
+		c.Rep.undecided(rule, minF.Short(), "MinLen scan", c.P.pos(minF.Body), "GetMinLenItem has no top-level loop over the items")
+		return
+	}
+	var seqs [][]int64
+	var gen func(cur []int64)
+	gen = func(cur []int64) {
+		if len(cur) > 0 {
+			seqs = append(seqs, append([]int64(nil), cur...))
+		}
+		if len(cur) == 3 {
+			return
+		}
+		for l := int64(0); l <= 3; l++ {
+			gen(append(cur, l))
+		}
+	}
+	gen(nil)
+	for _, lens := range seqs {
+		inst := fmt.Sprintf("MinLen over lengths %v", lens)
+		te := &tableEval{c: c}
+		label := func(j int64) string { return fmt.Sprintf("item:%d", j) }
+		lenOf := func(v tval) (tval, bool) {
+			var j int64
+			if n, _ := fmt.Sscanf(v.Obj, "item:%d", &j); n == 1 && j >= 0 && int(j) < len(lens) {
+				return tval{I: lens[j]}, true
+			}
+			return tval{}, false
+		}
+		te.effect = func(g *Func, call *ast.CallExpr) bool { return true } // locking and unlocking
+		te.leafEnv = func(g *Func, e ast.Expr, env tenv) (tval, bool) {
+			switch x := e.(type) {
+			case *ast.CallExpr:
+				ce := resolveCallee(g.Info(), x)
+				if ce.Fn != nil && ce.Fn.Name() == "Len" && ce.Recv != nil && len(x.Args) == 0 {
+					saved := te.why
+					if rv, ok := te.expr(g, ce.Recv, env); ok {
+						return lenOf(rv)
+					}
+					te.why = saved
+				}
+				if ce.Builtin == "len" && len(x.Args) == 1 && selField(g.Info(), x.Args[0]) == fItems {
+					return tval{I: int64(len(lens))}, true
+				}
+			case *ast.IndexExpr:
+				if selField(g.Info(), x.X) == fItems {
+					saved := te.why
+					if iv, ok := te.expr(g, x.Index, env); ok && !iv.IsBool && iv.Obj == "" && iv.I >= 0 && int(iv.I) < len(lens) {
+						return tval{Obj: label(iv.I)}, true
+					}
+					te.why = saved
+				}
+			case *ast.StarExpr:
+				// *new(T): the zero item
+				if call, ok := ast.Unparen(x.X).(*ast.CallExpr); ok && resolveCallee(g.Info(), call).Builtin == "new" {
+					return tval{Obj: "zero"}, true
+				}
+			}
+			return tval{}, false
+		}
+		env := tenv{}
+		decided := true
+		var res []tval
+		returned := false
+		// statements before the loop (declarations of the scan's state; the early return for no items does not fire)
+		for _, s := range pre {
+			switch s.(type) {
+			case *ast.DeferStmt, *ast.ExprStmt:
+				continue
+			}
+			if _, ret, ok := te.stmt(minF, s, env); !ok || ret {
+				decided = false
+			}
+		}
+		for j := range lens {
+			if !decided {
+				break
+			}
+			if elem != nil {
+				env[elem] = tval{Obj: label(int64(j))}
+			}
+			if key != nil {
+				env[key] = tval{I: int64(j)}
+			}
+			te.br = ""
+			r, ret, ok := te.block(minF, body.List, env)
+			if !ok {
+				decided = false
+				break
+			}
+			if ret && te.br == "" {
+				res, returned = r, true
+				break
+			}
+			if te.br == "break" {
+				break
+			}
+		}
+		te.br = ""
+		if decided && !returned {
+			var ok bool
+			res, returned, ok = te.block(minF, post, env)
+			if !ok || !returned {
+				decided = false
+			}
+		}
+		if !decided || len(res) != 2 {
+			c.Rep.undecided(rule, minF.Short(), inst, c.P.pos(body), "MinLen scan not evaluable on order types: "+te.why)
+			return
+		}
+		best := int64(0)
+		for _, l := range lens {
+			if l > 0 && (best == 0 || l < best) {
+				best = l
+			}
+		}
+		if best == 0 {
+			c.Rep.check(!res[1].IsNil, rule, minF.Short(), inst, c.P.pos(body), inst+" reports all items empty", fmt.Sprintf("%s: every item is empty and GetMinLenItem returns %s without an error", inst, res[0]))
+			continue
+		}
+		got, okLen := lenOf(res[0])
+		good := res[1].IsNil && okLen && got.I == best
+		c.Rep.check(good, rule, minF.Short(), inst, c.P.pos(body), inst+" selects a shortest non-empty item", fmt.Sprintf("%s: GetMinLenItem returns (%s, %s); MinLen must select a non-empty item of minimal length (here length %d)", inst, res[0], res[1], best))
 	}
 }
